@@ -198,7 +198,9 @@ fn via_reader(col: &mut Collector, exp: &Expectation, ok: &OkObs, bytes: &[u8]) 
     }
     // a reader that fragments its reads (1..=5 bytes per call), like a socket or a small BufReader
     let chunk = 1 + ((h >> 16) % 5) as usize;
-    let mut cur = crate::rdr::HostileReader::new_at(&stream, plen, vec![], chunk);
+    // ... every fourth of them with a transient `Interrupted` before each read that delivers data
+    let sched: Vec<crate::rdr::Step> = if (h >> 24) & 3 == 0 { (0..64).map(|i| if i % 2 == 0 { crate::rdr::Step::Interrupt } else { crate::rdr::Step::Chunk(chunk) }).collect() } else { vec![] };
+    let mut cur = crate::rdr::HostileReader::new_at(&stream, plen, sched, chunk);
     col.count("frames_also_decoded_via_reader", 1);
     match mon::guarded(|| Frame::from_reader(&mut cur)) {
         Ok(Ok(f)) => {
